@@ -392,7 +392,7 @@ CHECKS['C02'] = dict(
     level='exploration',
     rule='generated (key, input, version): key lengths {0,1,12,31,32,59,60,61,63,64,65,127..129,200,500} and uniform <= 96 (keys > 60 bytes feed Argon2 whole, BlakeGenerator truncated), '
          'input lengths {0,1,55,63..65,76,127..129,255..257,1000,4095..4097} and uniform <= 300, contents uniform/constant/counter; oracle: randomx_calculate_hash through a light JIT VM '
-         '(and a light interpreter VM for one input per key) == the independent executable specification (model/ref_randomx); then the same cases are hashed by differently compiled '
+         '(and a light interpreter VM for two of the ten inputs per key) == the independent executable specification (model/ref_randomx); then the same cases are hashed by differently compiled '
          'builds (g++ -O1 with asserts, clang ASan) in separate processes and must reproduce the specification digests (fixed pure function across runs, processes, builds). On mismatch '
          'the check says whether cache, SuperscalarHash programs, dataset items or the VM/driver deviates. Non-trivial: every distinct (key,input,version) - none of the 10 suite vectors is generated',
     assumptions=COMMON_ASSUME + ['model/ref_*.cpp is a correct reading of specs.md ch.2-7 (self-test: RFC 7693/9106 vectors, FIPS-197, hashlib, AES-NI, all 10 published digests)',
@@ -400,7 +400,7 @@ CHECKS['C02'] = dict(
     pre=_c02_clean,
     stages=[
         dict(name='spec', harness=H('c02', ['harness/c02_spec.cpp'], model=True, cflags=['-DWITH_MODEL']), args=['--aux', C02_AUX],
-             plan={'quick': 'spec=16', 'thorough': 'spec=384'}),
+             plan={'quick': 'spec=32', 'thorough': 'spec=480'}),
         dict(name='chk', harness=H('c02x', ['harness/c02_spec.cpp'], variant='chk'), args=['--aux', C02_AUX],
              plan={'quick': 'xbuild=all', 'thorough': 'xbuild=all'}),
         dict(name='asan', harness=H('c02x', ['harness/c02_spec.cpp'], variant='asan'), args=['--aux', C02_AUX],
